@@ -874,10 +874,20 @@ func (eng *Engine) callersObligations(tag string) []*Obligation {
 				}
 				sort.Strings(cs)
 				for _, c := range cs {
-					out = append(out, &Obligation{Name: "callgraph#" + rule.Label + "@" + c, Func: "call graph of /repo", Kind: "structural", Label: rule.Label, Tags: rule.Tags,
-						Pos: byCaller[c][0], Structural: true, StructOK: false, Guard: "true",
-						Goal:      fmt.Sprintf("%s does not call %s", c, rule.Callee),
-						StructMsg: fmt.Sprintf("%s calls %s at %s", c, rule.Callee, strings.Join(byCaller[c], ", "))})
+					// ... and one per further call site of the same caller (a second write-back added to a function
+					// that already has one is a new violation too); sites in source order
+					sites := byCaller[c]
+					sort.Slice(sites, func(i, j int) bool { return posLess(sites[i], sites[j]) })
+					for k, site := range sites {
+						name := "callgraph#" + rule.Label + "@" + c
+						if k > 0 {
+							name += fmt.Sprintf("#site%d", k+1)
+						}
+						out = append(out, &Obligation{Name: name, Func: "call graph of /repo", Kind: "structural", Label: rule.Label, Tags: rule.Tags,
+							Pos: site, Structural: true, StructOK: false, Guard: "true",
+							Goal:      fmt.Sprintf("%s does not call %s (call site %d of %d)", c, rule.Callee, k+1, len(sites)),
+							StructMsg: fmt.Sprintf("%s calls %s at %s", c, rule.Callee, site)})
+					}
 				}
 				if len(cs) == 0 {
 					out = append(out, &Obligation{Name: "callgraph#" + rule.Label, Func: "call graph of /repo", Kind: "structural", Label: rule.Label, Tags: rule.Tags,
@@ -985,6 +995,22 @@ func (eng *Engine) nonBlockingObligations(tag string) []*Obligation {
 		}
 	}
 	return out
+}
+
+// posLess orders "file:line:col" positions of one file by line, then column.
+func posLess(a, b string) bool {
+	pa, pb := strings.Split(a, ":"), strings.Split(b, ":")
+	if len(pa) < 3 || len(pb) < 3 {
+		return a < b
+	}
+	la, _ := strconv.Atoi(pa[len(pa)-2])
+	lb, _ := strconv.Atoi(pb[len(pb)-2])
+	if la != lb {
+		return la < lb
+	}
+	ca, _ := strconv.Atoi(pa[len(pa)-1])
+	cb, _ := strconv.Atoi(pb[len(pb)-1])
+	return ca < cb
 }
 
 // selfTest (thorough tier): the must-fail corpus. Every seeded change of this property that the committed record
@@ -1387,6 +1413,9 @@ func (eng *Engine) fieldTagObligations(tag string) []*Obligation {
 							got := reflect.StructTag(st.Tag(i)).Get(rule.Allowed[0])
 							if i2 := strings.Index(got, ","); i2 >= 0 {
 								got = got[:i2]
+							}
+							if got == "" && rule.Allowed[0] == "yaml" {
+								got = strings.ToLower(parts[1]) // gopkg.in/yaml.v2: an untagged field is read under its lower-cased name
 							}
 							if got == rule.Allowed[1] {
 								o.StructOK, o.StructMsg = true, ""
